@@ -13,9 +13,10 @@ from hv.gen.intervals import device_intervals, interval_case, tie_classes
 from hv.model.intervals import combo_measure, union_measure
 
 ID = "C05"
-RULE = ("G-iv (1-3 ranks, 1-14 activities, 1-4 streams, tie-heavy integer coordinates) x num_kernels in 1..6 x duration_ratio in "
+RULE = ("Campaign breakdown: G-iv (1-3 ranks, 1-14 activities, 1-4 streams, tie-heavy integer coordinates) x num_kernels in 1..6 x duration_ratio in "
         "(0,1] x include_memory_kernels; oracle = exclusive type-combination measure by sweep (type table) and per-name "
-        "count/sum/min/max/mean recomputed from the raw entries (per-kernel table). Non-trivial: >= 2 analysed types overlap in "
+        "count/sum/min/max/mean recomputed from the raw entries (per-kernel table). Campaign annotations: the same aggregation "
+        "through get_gpu_user_annotation_breakdown on generated host/device user annotations x num_kernels x allowlist. Non-trivial: >= 2 analysed types overlap in "
         "time on some rank and some (rank,type) has more distinct names than num_kernels. Distinct = distinct canonical case JSON.")
 ASSUMPTIONS = [
     "only the JSON parser backend (ijson is not installed)",
@@ -132,8 +133,91 @@ def view(case):
     return {"params": case["params"], "ranks": [{"rank": r["rank"], "device": device_intervals(r["events"])} for r in case["ranks"]]}
 
 
+# ---- user-annotation breakdown (same aggregator, other event selection) -----------------------------
+ANN_NAMES = ["forward", "loss", "optimizer", "data_loading", "u_block_a", "u_block_b", "nccl:all_reduce", "step_hook"]
+
+
+@st.composite
+def ann_case(draw):
+    nranks = draw(st.sampled_from([1, 2, 1]))
+    ranks = []
+    for r in range(nranks):
+        events = [{"ph": "X", "cat": "cpu_op", "name": "aten::empty", "pid": 1000 + r, "tid": 1000 + r, "ts": draw(st.integers(0, 5)),
+                   "dur": 1, "args": {"External id": 1}}]
+        for _ in range(draw(st.sampled_from([1, 3, 5, 8, 12]))):
+            gpu = draw(st.sampled_from([True, False]))
+            name = draw(st.sampled_from(ANN_NAMES))
+            ts, dur = draw(st.integers(0, 40)), draw(st.sampled_from([0, 1, 2, 5, 9, 20]))
+            if gpu:
+                events.append({"ph": "X", "cat": "gpu_user_annotation", "name": name, "pid": r % 8, "tid": 7, "ts": ts, "dur": dur,
+                               "args": {"stream": 7, "External id": 5}})
+            else:
+                events.append({"ph": "X", "cat": "user_annotation", "name": name, "pid": 1000 + r, "tid": 1000 + r, "ts": ts, "dur": dur,
+                               "args": {"External id": 6}})
+        ranks.append({"rank": r, "events": events})
+    return {"ranks": ranks, "fmt": "json", "params": {
+        "gpu": draw(st.sampled_from([True, False])), "num_kernels": draw(st.sampled_from([1, 2, 3, 5, 1000])),
+        "ratio": draw(st.sampled_from([0.8, 0.5, 0.2, 1.0])),
+        "allow": draw(st.sampled_from([None, None, ["loss"], ["u_block"], ["forward", "optimizer"]]))}}
+
+
+def check_ann(case: Dict[str, Any]) -> CaseInfo:
+    from hv.hta_io import load_analysis
+    from hv.model.raw import complete_rows
+
+    p = case["params"]
+    cat = "gpu_user_annotation" if p["gpu"] else "user_annotation"
+    with scratch_dir() as d:
+        files = write_case(case, d)
+        ta = load_analysis(files, d)
+        df = hta_call("get_gpu_user_annotation_breakdown", lambda: ta.get_gpu_user_annotation_breakdown(
+            use_gpu_annotation=p["gpu"], visualize=False, duration_ratio=p["ratio"], num_kernels=p["num_kernels"],
+            allowlist_patterns=p["allow"]))
+    present = any(r.cat == cat for rd in case["ranks"] for r in complete_rows(rd["events"]))
+    if not present:
+        require(df is None, "annotations:none_expected", lambda: str(df))
+        return CaseInfo(nontrivial=False, classes=["no_annotation_of_kind"])
+    require(df is not None, "annotations:missing", "None returned")
+    classes: List[str] = []
+    nt = False
+    for rd in case["ranks"]:
+        durs: Dict[str, List[int]] = {}
+        for r in complete_rows(rd["events"]):
+            if r.cat == cat:
+                durs.setdefault(r.name, []).append(r.dur)
+        sub = df[df["rank"] == rd["rank"]]
+        if not durs:
+            require(len(sub) == 0, "annotations:rows_without_events", lambda: sub.to_string())
+            continue
+        total = sum(sum(v) for v in durs.values())
+        require(float(sub["sum (us)"].sum()) == float(total), "annotations:sum_conserved", lambda: f"{total}\n{sub.to_string()}")
+        named = sub[sub["name"] != "others"]
+        allowed = [n for n in durs if p["allow"] and any(a in n for a in p["allow"])]
+        require(len(named) <= p["num_kernels"] + len(allowed) or len(durs) <= p["num_kernels"], "annotations:at_most_num_kernels_plus_allowlist",
+                lambda: f"{len(named)} named rows, num_kernels {p['num_kernels']}, allowlisted {allowed}\n{sub.to_string()}")
+        if len(durs) > p["num_kernels"]:
+            classes.append("others_bucket")
+            for n in allowed:
+                require(n in set(named["name"]), "annotations:allowlisted_name_kept", lambda: f"{n!r}\n{sub.to_string()}")
+            if allowed:
+                classes.append("allowlist_effective")
+            nt = True
+        for _, r in named.iterrows():
+            require(r["name"] in durs, "annotations:unknown_name", lambda: str(r.to_dict()))
+            v = durs[r["name"]]
+            want = {"sum (us)": sum(v), "max (us)": max(v), "min (us)": min(v), "mean (us)": sum(v) / len(v)}
+            for k, w in want.items():
+                require(abs(float(r[k]) - w) <= 1e-9 * max(1.0, abs(w)), "annotations:named_" + k.split()[0],
+                        lambda: f"rank {rd['rank']} {r['name']!r}: durations {v}: want {want}, got {r.to_dict()}")
+    classes.append("gpu_annotations" if p["gpu"] else "cpu_annotations")
+    return CaseInfo(nontrivial=nt, classes=classes)
+
+
 def campaigns(tier: str) -> List[Campaign]:
     return [Campaign("breakdown", c05_case(), check, quick=400, thorough=20000, quick_shards=8,
                      required_classes={"type_overlap": 0.3, "others_bucket": 0.15, "with_memory": 0.2, "multi_rank": 0.1,
                                        "repeated_name": 0.2},
-                     sample_view=view)]
+                     sample_view=view),
+            Campaign("annotations", ann_case(), check_ann, quick=240, thorough=8000, quick_shards=4,
+                     required_classes={"others_bucket": 0.15, "gpu_annotations": 0.2, "cpu_annotations": 0.2},
+                     sample_view=lambda c: {"params": c["params"], "events": [[e["cat"], e["name"], e["dur"]] for e in c["ranks"][0]["events"]]})]
